@@ -68,7 +68,7 @@ IoAddr(lv, cx) == IF lv.ok /\ "io" \in DOMAIN cx.vt[lv.name] /\ cx.vt[lv.name].i
 
 Res(v, ty, st, flex) == [v |-> v, ty |-> ty, st |-> st, flex |-> flex]
 
-RECURSIVE Ev(_, _, _), ResLv(_, _, _), EvArgs(_, _, _, _, _), Exec(_, _, _, _), Loop(_, _, _, _), RunSwitch(_, _, _, _, _)
+RECURSIVE Ev(_, _, _), ResLv(_, _, _), EvArgs(_, _, _, _, _), Exec(_, _, _, _), Loop(_, _, _, _), RunSwitch(_, _, _, _, _), RunBody(_, _, _, _)
 
 \* Resolve an lvalue expression to [st, ok, name, i, ty]  (i = 0: scalar, i >= 1: array element)
 ResLv(e, st, cx) ==
@@ -163,7 +163,7 @@ Ev(e, st, cx) ==
         (LET f == cx.fs[e.f]
              st1 == EvArgs(e.args, 1, f.params, st, cx)
              st2 == IF st1["_fuel"] = 0 THEN st1
-                    ELSE Exec(f.body, 1, [st1 EXCEPT !["_fuel"] = @ - 1, !["_ret"] = 0], cx).st
+                    ELSE RunBody(f.body, 1, [st1 EXCEPT !["_fuel"] = @ - 1, !["_ret"] = 0], cx).st
          IN Res(st2["_ret"], Ty(8, FALSE), st2, FALSE))
 
 EvArgs(args, i, params, st, cx) ==
@@ -183,7 +183,7 @@ Loop(s, skipTest, st, cx) ==
   LET c == IF skipTest THEN Res(1, IntTy, st, TRUE) ELSE Ev(s.c, st, cx) IN
   IF c.v = 0 THEN Out(c.st, "n") ELSE
   LET b == Exec(s.b, 1, [c.st EXCEPT !["_fuel"] = @ - 1], cx) IN
-  IF b.ctl = "r" THEN b
+  IF b.ctl \in {"r", "g"} THEN b                   \* return and goto leave the loop
   ELSE IF b.ctl = "b" THEN Out(b.st, "n")
   ELSE LET u == IF s.upd.k = "none" THEN b.st ELSE Ev(s.upd, b.st, cx).st
        IN Loop(s, FALSE, u, cx)
@@ -225,6 +225,7 @@ Exec(stmts, i, st, cx) ==
                       ELSE IF dfl # {} THEN CHOOSE j \in dfl : TRUE ELSE Len(s.cases) + 1
              r == RunSwitch(s.cases, start, Havoc(v.st), cx, 0)
          IN IF r.ctl = "b" THEN next(r.st) ELSE sub(r))
+    [] s.k = "goto" -> [st |-> st, ctl |-> "g", lab |-> s.target]
     [] s.k = "break" -> Out(st, "b")
     [] s.k = "continue" -> Out(st, "c")
     [] s.k = "return" ->
@@ -256,5 +257,13 @@ Exec(stmts, i, st, cx) ==
 InitState(inp, fuel) == inp @@ [k \in {"_fuel", "_ub", "_ret", "_A", "_io"} |->
                                   CASE k = "_fuel" -> fuel [] k = "_ub" -> 0 [] k = "_ret" -> 0 [] k = "_A" -> -1
                                     [] k = "_io" -> <<>>]
-RunMain(body, inp, fuel, cx) == Exec(body, 1, InitState(inp, fuel), cx).st
+\* A function body: labels stand on statements of its top level only (a restriction of the generator, not of C); a goto
+\* met anywhere inside - in an if, a loop, a switch - unwinds to the top level, which resumes at the labelled statement.
+RunBody(body, i, st, cx) ==
+  LET r == Exec(body, i, st, cx) IN
+  IF r.ctl # "g" \/ Stop(r.st) THEN r
+  ELSE LET js == {j \in 1..Len(body) : "label" \in DOMAIN body[j] /\ body[j].label = r.lab}
+       IN IF js = {} THEN Out(Ub(r.st), "n")
+          ELSE RunBody(body, CHOOSE j \in js : TRUE, [r.st EXCEPT !["_fuel"] = @ - 1], cx)
+RunMain(body, inp, fuel, cx) == RunBody(body, 1, InitState(inp, fuel), cx).st
 =============================================================================
